@@ -235,11 +235,19 @@ class RawSession:
 
     def close(self):
         self.rec.emit(dict(ev="Close", sid=self.sid))
-        self.agent.close()
+        if not getattr(self, "dead", False):
+            self.agent.close()
         self.sock = None
+
+    def kill_agent(self):
+        """the peer goes away (port closed): later sends of this session meet ICMP port-unreachable / ECONNREFUSED"""
+        self.agent.close()
+        self.dead = True
 
     def drain(self):
         got = []
+        if getattr(self, "dead", False):
+            return got
         while True:
             try:
                 d, peer = self.agent.recvfrom(65535)
